@@ -2,6 +2,7 @@
 import copy
 import io
 import json
+import operator
 import os
 import shutil
 import tempfile
@@ -159,6 +160,10 @@ def _menu():
         "gate_dagger": (("circ",), lambda c, k, x, t: c.operations[k % len(c.operations)].gate.dagger(*c.operations[k % len(c.operations)].qubit_indices) if c.operations else None),
         "gate_controlled": (("circ",), lambda c, k, x, t: c.operations[k % len(c.operations)].gate.controlled(1 + k % 2).num_qubits if c.operations else None),
         "gate_matrix": (("circ",), lambda c, k, x, t: c.operations[k % len(c.operations)].gate.matrix if c.operations else None),
+        "op_apply": (("circ", "vec"), lambda c, v, k, x, t: c.operations[k % len(c.operations)].apply(v) if (c.operations and not c.free_symbols and len(v) == 2 ** c.n_qubits) else None),
+        "c_apply_all": (("circ", "vec"), lambda c, v, k, x, t: __import__("functools").reduce(lambda st_, op: op.apply(st_), c.operations, v) if (c.operations and not c.free_symbols and len(v) == 2 ** c.n_qubits) else None),
+        "c_iadd": (("circ", "circ"), lambda c, d, k, x, t: operator.iadd(c, d)),
+        "c_iadd_op": (("circ", "circ"), lambda c, d, k, x, t: operator.iadd(c, d.operations[k % len(d.operations)]) if d.operations else None),
         "gate_replace_params": (("circ",), lambda c, k, x, t: (lambda op: op.replace_params(tuple(x for _ in op.params)))(c.operations[k % len(c.operations)]) if c.operations else None),
         # operators
         "p_add": (("pauli", "pauli"), lambda a, b, k, x, t: a + b),
@@ -173,6 +178,14 @@ def _menu():
         "p_rsub": (("pauli",), lambda a, k, x, t: x - a),
         "p_div": (("pauli",), lambda a, k, x, t: a / (x if x else 1.5)),
         "p_pow": (("pauli",), lambda a, k, x, t: a ** (k % 4)),
+        "p_iadd": (("pauli", "pauli"), lambda a, b, k, x, t: operator.iadd(a, b)),
+        "p_iadd_number": (("pauli",), lambda a, k, x, t: operator.iadd(a, x)),
+        "p_isub": (("pauli", "pauli"), lambda a, b, k, x, t: operator.isub(a, b)),
+        "p_imul": (("pauli", "pauli"), lambda a, b, k, x, t: operator.imul(a, b)),
+        "p_imul_number": (("pauli",), lambda a, k, x, t: operator.imul(a, x + 1j * (k % 2))),
+        "p_idiv": (("pauli",), lambda a, k, x, t: operator.itruediv(a, x if x else 1.5)),
+        "p_ipow": (("pauli",), lambda a, k, x, t: operator.ipow(a, k % 4)),
+        "p_neg_like": (("pauli",), lambda a, k, x, t: -1 * a),
         "p_simplify": (("sum",), lambda a, k, x, t: a.simplify()),
         "p_conj": (("pauli",), lambda a, k, x, t: hermitian_conjugated(a)),
         "p_is_hermitian": (("pauli",), lambda a, k, x, t: is_hermitian(a)),
@@ -269,6 +282,10 @@ def machine(on_end, expired):
                 a = sympy.Symbol("a")
                 self._add("circ", Circuit([RX(a)(0), U3(0.3, a * 2, 0.1)(1), RX(0.5)(2)]))
                 self._add("circ", Circuit([U3(0.3, 0.2, 0.1).controlled(1)(2, 0)], 3))
+                ph = [0.1 * (1 + (seed + 3 * i) % 17) for i in range(8)]
+                self._add("circ", Circuit([MultiPhaseOperation(tuple(ph)), RX(0.5)(1)], 3))
+                self._add("circ", Circuit([MultiPhaseOperation(tuple(ph[::-1]))], 3))
+                self._add("circ", Circuit([RX(0.25)(2), MultiPhaseOperation(tuple(ph)), MultiPhaseOperation(tuple(ph[::-1]))], 3))
                 for t in terms:
                     self._add("term", pgen.build_term(t))
                 for s in sums:
@@ -289,6 +306,10 @@ def machine(on_end, expired):
                 v = v / np.linalg.norm(v)
                 self._add("wf", Wavefunction(v.copy()))
                 self._add("vec", v.copy())
+                r = rs.normal(size=8)
+                self._add("vec", r / np.linalg.norm(r))                      # real float64 array
+                self._add("vec", [complex(a) for a in v[::-1]])               # plain list of complex numbers
+                self._add("vec", np.asarray(v[::-1], dtype=np.complex128).reshape(8).copy(order="F"))
                 self._add("qlist", [2, 0])
                 self._add("qlist", [1])
             self.step("init", {"circs": circs, "terms": terms, "sums": sums, "zterms": zterms, "bits": bits, "dists": dists, "seed": seed}, go)
